@@ -364,6 +364,7 @@ def run_check(prop, args, seed, t0):
 
     # 3. verdicts
     dead_now = {}
+    cross = {}
     paths_total = {}
     dead_baseline = load_dead_baseline()
     violations = []     # (oid or clause, replay path, no_input)
@@ -414,6 +415,10 @@ def run_check(prop, args, seed, t0):
                 backend_counts[ob["kf"]["backend"]] = backend_counts.get(ob["kf"]["backend"], 0) + 1
             elif ok:
                 backend_counts[ob["backend"]] = backend_counts.get(ob["backend"], 0) + 1
+            if ok and ob.get("cvc5") is not None:
+                cross[ob["cvc5"]] = cross.get(ob["cvc5"], 0) + 1
+                if ob["cvc5"] == "sat":
+                    undecided.append((ob["oid"], "solver disagreement: z3 proves the obligation, cvc5 reports a counter-model"))
             if ok:
                 n_dis += 1
                 discharged_now.append(ob["oid"])
@@ -539,6 +544,7 @@ def run_check(prop, args, seed, t0):
         "functions_under_contract": functions,
         "backends": backend_counts, "solver_time_s": round(solver_time, 3), "rlimit": rlimit,
         "undecided": [{"what": a, "why": b} for a, b in undecided],
+        "cvc5_cross_check_of_discharged_obligations (thorough tier)": cross,
         "vacuity_guard": {"paths_checked": sum(paths_total.values()),
                           "provably_unreachable_paths (reviewed list: contracts/baseline_dead_paths.json)": dead_now},
         "bounded": bounded,
